@@ -113,6 +113,68 @@ Theorem C15_iterator_binds : forall k b kids c x v n,
 Proof. exact (copy_binds coded). Qed.
 Print Assumptions C15_iterator_binds.
 
+(* --- nested iterators: the same, at every depth ---
+   [occ c loc r c' loc' r']: the load of r processes the template r' under the parent maps c'
+   (through any number of iterator copies and enabled aggregators).  An iterator inside the
+   template of another iterator occurs once per copy of the enclosing template, each time under
+   that copy's own maps. *)
+
+(* every iterator occurrence of a successful load yields exactly one copy per element of its
+   range as evaluated under the maps of that occurrence, in order (disabled copies filtered) *)
+Theorem C15_nested_iterator_exact : forall c r t c' loc' fs k b kids,
+  load c r = Ok t -> occ c [] r c' loc' (Role (Some fs) k b kids) ->
+  exists vals ns,
+    range_vals (stack [] c') fs = Some vals /\
+    Forall2 (fun v m => proc coded (Role None k b kids) c' [(f_var fs, v)] = Ok m) vals ns /\
+    (proc coded (Role (Some fs) k b kids) c' loc' =
+     Ok (OIter (show (r_name b)) (show (r_enabled b)) (filter (node_enabled coded) ns))).
+Proof. exact (fun c r t => nested_iterator_exact coded c [] r t). Qed.
+Print Assumptions C15_nested_iterator_exact.
+
+Theorem C15_nested_iterator_count : forall c r t c' loc' fs k b kids,
+  load c r = Ok t -> occ c [] r c' loc' (Role (Some fs) k b kids) ->
+  exists vals ns n,
+    range_vals (stack [] c') fs = Some vals /\
+    Forall2 (fun v m => proc coded (Role None k b kids) c' [(f_var fs, v)] = Ok m) vals ns /\
+    proc coded (Role (Some fs) k b kids) c' loc' = Ok n /\
+    ((forall m, In m ns -> node_enabled coded m = true) ->
+     onode_kids n = ns /\ length (onode_kids n) = length vals).
+Proof. exact (fun c r t => nested_iterator_count coded c [] r t). Qed.
+Print Assumptions C15_nested_iterator_count.
+
+(* seen from the loaded tree: every iterator container anywhere in it, whatever encloses it, is
+   the expansion of one occurrence of an iterator template and holds exactly the enabled copies,
+   one per element of the range evaluated under the maps of that occurrence *)
+Theorem C15_nested_containers_exact : forall c r t nm en ks,
+  load c r = Ok t -> In (OIter nm en ks) (nodes t) ->
+  exists c' loc' fs k b kids vals ns,
+    occ c [] r c' loc' (Role (Some fs) k b kids) /\
+    range_vals (stack [] c') fs = Some vals /\
+    Forall2 (fun v m => proc coded (Role None k b kids) c' [(f_var fs, v)] = Ok m) vals ns /\
+    nm = show (r_name b) /\ en = show (r_enabled b) /\ ks = filter (node_enabled coded) ns.
+Proof. exact (fun c r t nm en ks => containers_sound coded r c [] t nm en ks). Qed.
+Print Assumptions C15_nested_containers_exact.
+
+(* the maps under which the roles inside the copy for element v are processed — in particular
+   the ranges of the iterators among them — bind the iteration variable to v (unless a user
+   variable of that name overrides it), and so do the maps below every further role that does
+   not define the name itself: an inner `end: "{{ x }}"` is the element of the enclosing copy *)
+Theorem C15_nested_scope : forall c x v b s i,
+  stages c [(x, v)] b s = Some i -> assoc x (cU c) = None ->
+  assoc x (cV (child_ctx c i)) = Some v /\ assoc x (cU (child_ctx c i)) = None /\
+  eval (stack [] (child_ctx c i)) [PVar x] = Some v.
+Proof. exact copy_scope. Qed.
+Print Assumptions C15_nested_scope.
+
+Theorem C15_nested_scope_inherited : forall c loc x v b s i,
+  assoc x (cV c) = Some v -> assoc x (cU c) = None ->
+  assoc x loc = None -> assoc x (r_vars b) = None ->
+  stages c loc b s = Some i ->
+  assoc x (cV (child_ctx c i)) = Some v /\ assoc x (cU (child_ctx c i)) = None /\
+  eval (stack [] (child_ctx c i)) [PVar x] = Some v.
+Proof. exact scope_inherited. Qed.
+Print Assumptions C15_nested_scope_inherited.
+
 (* an iterator that still has children is kept by its parent: refuted — the parent filters the
    container on the template's unprocessed `enabled` text (finding C15-b) *)
 Definition C15_iterator_enabled_statement : Prop := iterator_enabled_statement.
@@ -175,14 +237,20 @@ Print Assumptions C15_reference_schedule_independent.
 (* non-vacuity: a template with a nested iterator over two elements, a role disabled by a
    variable of the environment and a variable defined at the root; it loads to a tree with six
    visible roles below the root, under a left-to-right and under a right-to-left schedule; the
-   witnesses of the three refuted clauses load successfully *)
+   witnesses of the three refuted clauses load successfully; an iterator nested in an iterator
+   with a range that counts up to the outer iteration variable *)
 Example C15_nonvacuous :
   (exists t, load ctx_xa ex_role = Ok t /\ length (desc t) = 6%nat /\
              run coded ex_sched_lr (WTodo ctx_xa [] ex_role) = WDone (Ok t) /\
              run coded ex_sched_rl (WTodo ctx_xa [] ex_role) = WDone (Ok t)) /\
   terr true ctx0 [] wit_masked /\
-  (exists t, load ctx0 wit_masked = Ok t /\ length (flat_map visible (onode_kids t)) = 1%nat).
+  (exists t, load ctx0 wit_masked = Ok t /\ length (flat_map visible (onode_kids t)) = 1%nat) /\
+  (* host{{it}} for it in 1..3 [ worker{{jt}} for jt in 1..{{it}} ]: the three copies hold 1, 2
+     and 3 workers *)
+  (exists t, load ctx0 ex_nested = Ok t /\ profile t = [3; 1; 2; 3] /\
+             length (flat_map visible (onode_kids t)) = 3%nat /\ length (flat t) = 1%nat /\
+             vis_count t = 10%nat).
 Proof.
-  split; [|split; [exact wit_masked_terr|exact wit_masked_loads]].
+  split; [|split; [exact wit_masked_terr|split; [exact wit_masked_loads|exact ex_nested_loads]]].
   vm_compute. eexists. repeat split; reflexivity.
 Qed.
